@@ -1,11 +1,13 @@
 """C07 — warn mode and strict mode agree up to the first problem."""
-from checks import decoder_units as D
+from checks import decoder_units as D, conformance
+
+SEED = [0]
 from checks.decoder_common import run_property
 
 
 def jobs(tier):
     m = ("strict", "warn")
-    return D.g_leaf(m, deep=2) + D.g_region(m, tier) + D.g_structs(m) + D.g_arrays(m) + D.g_frames(m)
+    return D.g_leaf(m, deep=2) + D.g_region(m, tier) + D.g_structs(m) + D.g_arrays(m) + D.g_frames(m) + conformance.jobs(tier, SEED[0])
 
 
 def keep(name, ob):
@@ -18,6 +20,7 @@ def keep(name, ob):
 
 
 def run(tier, seed, only=None):
+    SEED[0] = seed
     from checks.replay_decoder import replayer
     return run_property("C07", tier, seed, jobs(tier), keep,
                         "every contract is written once with a mode parameter: the problem cases come in pairs built from the same error record (strict: raise E / warn: [offending event] Warning(E) ...); each real function is proved against it in both modes, walkers pass the mode through unchanged and catch only their own regions",
